@@ -17,6 +17,11 @@ TRUSTED_EXTRA = ['modelled by hand: _evaluate_require (registration before recur
                  'as Model/Require.lean; extraction of require() calls from the tree and file lookup are parameters of the model']
 PARTIAL = 'C14: proof of the packaging logic; extraction of require() calls from the tree, file lookup and token-range stripping are tied by correspondence'
 LOOPS = [b'_init', b'_update', b'_update60', b'_draw']
+NEAR = [b'function _update_hud()', b'function _draw2(a)', b'function _initialize()', b'function _update6()', b'function _update600()',
+        b'function _init_()', b'function __init()', b'function init()', b'function _INIT()', b'function _updat()', b'function _dra()',
+        b'function m._init()', b'function m:_draw()', b'function m._update60.x()', b'local function _init()', b'local function _draw()',
+        b'_update = function()', b'_update60=function()', b'local _init = function()', b'function _draw_()', b'function update60()',
+        b'function _update61()', b'function _init1()']
 
 
 def sig_tokens(code):
@@ -59,7 +64,7 @@ class Graph:
         parts = []      # (kind, text) kinds: 'code', 'loop' (game-loop function), 'req'
         reqs = list(f['reqs'])
         nstat = rng.randrange(0, 4)
-        slots = ['code'] * nstat + ['req'] * len(reqs) + (['loop'] * rng.choice([0, 0, 1, 2]) if i else [])
+        slots = ['code'] * nstat + ['req'] * len(reqs) + (['loop'] * rng.choice([0, 0, 1, 2]) if i else []) + ['near'] * rng.choice([0, 0, 1, 2])
         rng.shuffle(slots)
         ri = 0
         for k in slots:
@@ -75,6 +80,9 @@ class Graph:
                 # a generated statement can itself be a top-level game-loop function (`function _init() ... end`): the build strips those
                 is_loop = (len(items) > 2 and items[0].text == b'function' and items[1].text in LOOPS and items[2].text == b'(')
                 parts.append(('loop' if is_loop else 'code', gen_lua.layout(rng, items, rng.choice(['compact', 'spaced', 'lines']), final_newline=False)))
+            elif k == 'near':
+                # definitions that resemble a game-loop function but are not one: they must stay (kind 'code')
+                parts.append(('code', rng.choice(NEAR) + b'\n  ' + rng.choice([b'cls()', b'y-=1', b'']) + b'\nend'))
             elif k == 'loop':
                 nm = rng.choice(LOOPS)
                 parts.append(('loop', b'function ' + nm + b'()\n  ' + rng.choice([b'cls()', b'x+=1', b'local m=1', b'']) + b'\nend'))
@@ -247,6 +255,44 @@ def run(ctx, res):
         res.count('error-cases')
         if rc == 0 or os.path.exists(out):
             res.fail('C14:error:' + name, 'require() with %s did not fail the build (rc=%r, output written=%s)' % (name, rc, os.path.exists(out)), {'main': hx(src)})
+    # the decision which statements are stripped (model `stripsStat` vs one real build per candidate definition)
+    d = os.path.join(ctx.tmp, 'strip')
+    I.write(os.path.join(d, 'main.lua'), b'require("p")\nx=1\n')
+    heads = []
+    for nm in LOOPS:
+        heads += [([nm], None), ([b'm', nm], None), ([nm], b'go'), ([nm, b'x'], None), ([nm + b'_hud'], None), ([nm + b'2'], None),
+                  ([nm[:-1]], None), ([b'_' + nm], None), ([nm[1:]], None), ([nm.upper()], None)]
+    alpha = [b'_', b'init', b'update', b'draw', b'60', b'6', b'0', b'x', b'_init', b'_update', b'_draw', b'_update60']
+    for _ in range(ctx.budget(40, 400)):
+        np_ = [b''.join(rng.choice(alpha) for _ in range(rng.randrange(1, 4))) for _ in range(rng.choice([1, 1, 1, 2]))]
+        np_ = [(b'a' + w if w[:1].isdigit() else w) for w in np_]
+        heads.append((np_, rng.choice([None, None, None, b'mm'])))
+    for np_, meth in heads:
+        src = b'function ' + b'.'.join(np_) + ((b':' + meth) if meth else b'') + b'()\n y=1\nend\nz=2\n'
+        I.write(os.path.join(d, 'p.lua'), src)
+        out = os.path.join(d, 'out.p8')
+        if os.path.exists(out):
+            os.remove(out)
+        rc = run_build(os.path.join(d, 'main.lua'), out)
+        res.evaluations += 1
+        if rc != 0 or not os.path.exists(out):
+            res.fail('C14:strip:' + src.decode('latin-1')[:30], 'build failed for a package defining %r' % src[:40], {'package': hx(src)})
+            continue
+        code = b''.join(gfile.from_file(out).lua.to_lines())
+        body_t = sig_tokens(src)
+        got = sig_tokens(code)
+        has_def = any(got[k:k + len(body_t)] == body_t for k in range(len(got) - len(body_t) + 1))
+        has_rest = any(got[k:k + 3] == body_t[-3:] for k in range(len(got) - 2))
+        is_loop = (len(np_) == 1 and meth is None and np_[0] in LOOPS)
+        key = 'C14:strip:' + src.split(b'(')[0].decode('latin-1')
+        if not has_rest or (has_def == is_loop):
+            res.fail(key, 'package definition `%s` was %s by the build; only plain _init/_update/_update60/_draw definitions may be removed'
+                     % (src.split(b'\n')[0].decode('latin-1'), 'kept' if has_def else 'removed'), {'package': hx(src), 'main': hx(b'require("p")\nx=1\n')})
+        lines.append('stripdec %s %s' % (':'.join(hx(w) for w in np_), hx(meth) if meth else 'n'))
+        expect.append('ok 0' if has_def else 'ok 1')
+        cases.append({'op': 'stripdec', 'def': src.split(b'\n')[0].decode('latin-1')})
+        res.count('strip-decision:' + ('stripped' if not has_def else 'kept'))
+        res.nontrivial.add(('strip', b'.'.join(np_), meth))
     # assembly of the block layout (model vs _prepend_package_lua)
     for _ in range(ctx.budget(40, 600)):
         pk = []
